@@ -528,7 +528,7 @@ func (c SeriesCheck) Check(ctx context.Context, entry discovery.Entry, entries [
 
 			// 6. If foo is ALWAYS/SOMETIMES there AND {bar OR baz} used to be there ALWAYS BUT it's NO LONGER there -> BUG
 			if len(trsLabel.Series.Ranges) == 1 &&
-				!oldest(trsLabel.Series.Ranges).After(trsLabel.Series.Until.Add(settings.lookbackRangeDuration-1).Add(settings.lookbackStepDuration)) &&
+				!oldest(trsLabel.Series.Ranges).After(trsLabel.Series.Until.Add(settings.lookbackRangeDuration*-1).Add(settings.lookbackStepDuration)) &&
 				newest(trsLabel.Series.Ranges).Before(trsLabel.Series.Until.Add(settings.lookbackStepDuration*-1)) {
 
 				var labelGapOutsideBaseGaps bool
